@@ -300,6 +300,62 @@ def _same_enum(a, b):
     return enum_eq(a, b) if hasattr(a, "idx") else a is b
 
 
+class CollectionRowOrder(Case):
+    """AnnotationCollection.to_gff: the rows of ALL children, ordered by start (whatever the nesting of the loci: a
+    host gene with two exons, a locus nested in it, a third locus starting before the host's second exon ...), every
+    row kept exactly once, and every Parent attribute naming an ID defined on an EARLIER row."""
+    props = ("C11", "C20")
+    name = "AnnotationCollection.to_gff[rows of three loci ordered by start, parents first, any nesting]"
+    func = "gene.collections.AnnotationCollection.to_gff"
+    module = "gene.collections"
+    shard_depth = 4
+    call = "[(r.start, r.end, r.attributes.id, r.attributes.parent) for r in col.to_gff()]"
+    ensures = {
+        "ordered-by-start": lambda i, r: And(*[r[k][0] <= r[k + 1][0] for k in range(len(r) - 1)]),
+        "every-row-exactly-once": lambda i, r: And(
+            len(r) == 10,
+            # rows are identified by their ID text; all ten IDs pairwise different
+            all(same_text(r[a][2], r[b][2]) is False for a in range(len(r)) for b in range(a + 1, len(r))),
+            # the multiset of (start, end) pairs is the expected one: compare the sums of starts and of ends and the
+            # presence of every expected pair
+            *[Or(*[And(x[0] == s + 1, x[1] == e) for x in r]) for s, e in i.expected_spans]),
+        "parent-defined-on-an-earlier-row": lambda i, r: all(
+            x[3] is None or any(same_text(r[b][2], x[3]) is True for b in range(a)) for a, x in enumerate(r)),
+    }
+
+    def inputs(self, S):
+        strand = strand_of(S, "strand")
+        h_s, h_e = block_lists(S, "host", 2, allow_adjacent=False)
+        s1, e1, s2, e2 = S.int("s1"), S.int("e1"), S.int("s2"), S.int("e2")
+        S.assume(And(0 <= s1, s1 < e1, 0 <= s2, s2 < e2))
+        host = S.new(GENE_Q, [S.new(TRANSCRIPT, h_s, h_e, strand, transcript_id="txh", sequence_name="chr1")],
+                     gene_id="host", sequence_name="chr1")
+        g1 = S.new(GENE_Q, [S.new(TRANSCRIPT, [s1], [e1], strand, transcript_id="tx1", sequence_name="chr1")],
+                   gene_id="g1", sequence_name="chr1")
+        g2 = S.new(GENE_Q, [S.new(TRANSCRIPT, [s2], [e2], strand, transcript_id="tx2", sequence_name="chr1")],
+                   gene_id="g2", sequence_name="chr1")
+        col = S.new("gene.collections.AnnotationCollection", genes=[host, g1, g2], sequence_name="chr1")
+        spans = [(h_s[0], h_e[1])] * 2 + [(h_s[0], h_e[0]), (h_s[1], h_e[1])] + [(s1, e1)] * 3 + [(s2, e2)] * 3
+        return NS(col=col, expected_spans=spans)
+
+    def samples(self, rng):
+        a = rng.randint(0, 5)
+        b = a + rng.randint(1, 4)
+        c = b + rng.randint(2, 9)
+        d = c + rng.randint(1, 4)
+        s1 = rng.randint(0, d)
+        s2 = rng.randint(0, d + 2)
+        return dict(host_starts=[a, c], host_ends=[b, d], strand=rng.choice(["PLUS", "MINUS"]), s1=s1,
+                    e1=s1 + rng.randint(1, 4), s2=s2, e2=s2 + rng.randint(1, 4))
+
+    def observe(self, r):
+        from pyvc.check import default_observe as o
+        return [[o(x[0]), o(x[1]), x[3] is None] for x in r]
+
+
+GENE_Q = "gene.gene.GeneInterval"
+
+
 class RowText(Case):
     """GFFRow.__str__: nine tab-separated columns in the documented order."""
     props = ("C11",)
@@ -326,7 +382,7 @@ class RowText(Case):
 
 CASES = [Escape(), AttributesColumn(), RowText(), TranscriptRows(1), TranscriptRows(2), TranscriptRows(1, True),
          TranscriptRows(2, True), FeatureRows(2), FeatureRows(2, True), FeatureRows(3, True),
-         GeneRowQualifiers()]
+         GeneRowQualifiers(), CollectionRowOrder()]
 
 CANARIES = [
     dict(name="gff: start not shifted to 1-based", props=("C11",), file="inscripta/biocantor/gene/transcript.py",
